@@ -14,8 +14,10 @@
     (tree updateh t u (L ignore*))             tree_update on the heap model (PygModel/TreeHeap.lean): both operands are
                                                laid out in a heap, the call is run with its item assignments, the result
                                                node is read back; `mutated` if a pre-existing node was written
-    (tree totable t S:pattern)                 tree_to_table(t, pattern): rows as tuples of the wildcard values in pattern order
+    (tree totable t S:pattern)                 tree_to_table(t, pattern): the rows, each a dict name -> value in the row's column order
     (tree totree S:pattern (L row*))           table_to_tree(None, pattern, rows), rows = dicts name -> value
+    (tree totreeon t S:pattern (L row*) cls)   table_to_tree(t, pattern, rows, base = type(t)) on a BASE tree, through the heap model
+                                               (TreeHeap.tableToTreeH) and the pure one (TreeTable.toTreeOn), which must agree
 -/
 import PygModel.Tree
 import PygModel.TreeHeap
@@ -62,6 +64,27 @@ def heapUpdate (t u : Val) (ig : List Val) : String :=
   | .ptr _, .val _ => "err ValueError"
   | _, _ => "err Other"
 
+/-- `table_to_tree(t, pattern, rows, base = type(t))` through the heap model: the base tree is laid out in a heap, the call is run
+with its item assignments, the frame (no old node written) is re-checked at run time, the result node is read back and must be what
+the pure model `TreeTable.toTreeOn` says -/
+def heapTable (t : Val) (pat : List TreeTable.Seg) (rows : List TreeTable.Row) : String :=
+  match t, rows.mapM (TreeTable.rowItem pat) with
+  | _, .error e => "err " ++ e.render
+  | .dict base, .ok its =>
+    let (m1, rt) := TreeHeap.allocTree ⟨[], []⟩ t
+    match rt with
+    | .ptr a =>
+      match TreeHeap.tableToTreeH (m1.heap.length + 1) m1 its a, TreeTable.toTreeOn base pat rows with
+      | .error e, .error e' => if e == e' then "err " ++ e.render else "err Other"
+      | .ok (m', r), .ok kvs =>
+        if m'.heap.take m1.heap.length != m1.heap || m'.log.any (· < m1.heap.length) then "mutated"
+        else match TreeHeap.readH m'.heap (m'.heap.length + 1) (.ptr r) with
+          | some v => if v == .dict kvs then "ok " ++ v.render else "err Other"
+          | none => "err Other"
+      | _, _ => "err Other"
+    | _ => "err Other"
+  | _, _ => "err Other"
+
 def handle1 (op : String) (args : List Sexp) : Option String := do
   match op, args with
   | "items", t :: _ => pure ("ok " ++ (Val.list ((items (← Val.ofSexp t)).map itemV)).render)
@@ -85,15 +108,20 @@ def handle1 (op : String) (args : List Sexp) : Option String := do
       match ← Val.ofSexp p with
       | .cell (.str ps) =>
           let pat := TreeTable.parsePattern ps
-          let names := pat.filterMap fun seg => match seg with | .wild n => some n | _ => Option.none
           let rows := TreeTable.toTable pat (← Val.ofSexp t)
-          pure ("ok " ++ (Val.list (rows.map fun row => .tuple (names.map fun n => (DA.lookup n row).getD (.cell .none)))).render)
+          pure ("ok " ++ (Val.list (rows.map .dict)).render)
       | _ => Option.none
   | "totree", [p, rows] =>
       match ← Val.ofSexp p, ← Val.ofSexp rows with
       | .cell (.str ps), .list rs => do
           let rows ← rs.mapM fun r => match r with | .dict kvs => some kvs | _ => Option.none
           pure (res ((TreeTable.toTree (TreeTable.parsePattern ps) rows).map .dict))
+      | _, _ => Option.none
+  | "totreeon", t :: p :: rows :: _ =>
+      match ← Val.ofSexp p, ← Val.ofSexp rows with
+      | .cell (.str ps), .list rs => do
+          let rows ← rs.mapM fun r => match r with | .dict kvs => some kvs | _ => Option.none
+          pure (heapTable (← Val.ofSexp t) (TreeTable.parsePattern ps) rows)
       | _, _ => Option.none
   | "merge", [t, u, ig] =>
       match ← Val.ofSexp ig with
